@@ -1191,6 +1191,12 @@ def run_H(pid, tier, seed):
         scen = dict(sc=sc, ops=ops)
         seen_setup = {}
         nfail0 = len(failures)
+        reg_ = ans.get(hid, {}).get(-1)
+        if reg_ is not None:
+            stats["setup_region_closed"] = stats.get("setup_region_closed", 0) + (reg_[1] == "closed")
+            if reg_[1] != "closed":
+                # the real constructor accepted a table whose setup nodes read something else than setup nodes
+                failures.append(Failure("proof", "setup-region-hypothesis-fails-on-an-accepted-table", scen, dict(model=reg_), slice_="H"))
         for rec in records:
             if len(failures) > nfail0:
                 break   # the rest of this history runs on a state the first failure already tainted
